@@ -8,7 +8,7 @@ import random
 # C cfgfn, X ctxfn, K collkind, O optional nat, B bool, GL grammar list
 SIG = {
     'end': '', 'empty': '', 'any': '', 'just': 'L', 'oneof': 'L', 'noneof': 'L', 'select': 'L', 'anyref': '', 'selectref': 'L',
-    'cnext': 'N', 'cnextmaybe': 'N', 'cparse': 'G', 'ccheck': 'G', 'trymapspan': 'G', 'ctake2': 'N', 'cnothing': '', 'cfail': 'N', 'todo': '',
+    'cnext': 'N', 'cnextmaybe': 'N', 'cparse': 'G', 'ccheck': 'G', 'unwrapsome': 'G', 'unwrapok': 'G', 'trymapspan': 'G', 'ctake2': 'N', 'cnothing': '', 'cfail': 'N', 'todo': '',
     'then': 'GG', 'ithen': 'GG', 'theni': 'GG', 'delim': 'GGG', 'padded': 'GG',
     'group': ['GL'], 'grouparr': ['GL'],
     'or': 'GG', 'choicet': ['GL'], 'choices': ['GL'], 'ornot': 'G', 'not': 'G', 'andis': 'GG', 'rewind': 'G',
